@@ -5,6 +5,7 @@ import io
 from hypothesis import strategies as st
 from metapype.eml import evaluate, export, validate
 from metapype.eml import rule as R
+from vf.shipped import RULES
 from metapype.model import metapype_io, mp_io
 from metapype.model.node import Node
 
@@ -242,7 +243,7 @@ def cases(draw):
         # non-breaking / doubled / padding whitespace - on any node, and preferably on nodes with typed content and on titles
         allp = [s for _, s in treegen.spec_nodes(sp)]
         special = [s for s in allp if s["n"] in ("title", "abstract", "para", "keyword") or
-                   contentgen.describe(R.rules_dict.get(R.node_mappings.get(s["n"], ""), [0, 0, {}])[2]).get("typed")]
+                   contentgen.describe(RULES.get(R.node_mappings.get(s["n"], ""), [0, 0, {}])[2]).get("typed")]
         pool = special if special and pre.bool() else allp
         for _ in range(pre.int(1, 3)):
             pre.pick(pool)["c"] = pre.pick(_MARKUP)
